@@ -21,7 +21,7 @@ def main(tier):
                              label=f'round trip of {CONTAINERS[cont]}, {COMP[ci]}',
                              bounds={'container': CONTAINERS[cont], 'compression': COMP[ci], 'ids': 'ASCII strings / Unicode strings / integers > 2^40 / numpy str array (integer range for unannotated collections)',
                                      'metadata': 'default / every field set with Unicode text and nested extra data / None and empty fields',
-                                     'k-mer parameters x stored integer type x signature lengths': ('every sixth of ' if tier == 'quick' else 'all of ') + '6 KmerSpecs (k = 1, 8, 11, 16, 17, 32) x u1/u2/u4/u8 x 6 length patterns (all empty, single, mixed with empty ones)',
+                                     'k-mer parameters x stored integer type x signature lengths': ('every sixth of ' if tier == 'quick' else 'all of ') + '7 KmerSpecs (k = 1, 8 twice - two prefixes of the same length, written and loaded in one process -, 11, 16, 17, 32) x u1/u2/u4/u8 x 6 length patterns (all empty, single, mixed with empty ones)',
                                      'indices compared after loading': 'every integer index, every slice with start/stop in [-n-1, n+1] or None and step in {None, 1, 2, -1, -2}, index lists (every list of three valid indices for collections of up to 3; all orders of four and lists with repeated / permuted interiors for longer ones) as list and intp array, one mask'}))
     jobs.append(dict(path=H, fname='_c12_foreign', params={}, timeout=300, self_reach=True, unblock=UNBLOCK, label='foreign files are refused with SignaturesFileError',
                      bounds={'contents': 'empty, plain text, FASTA, gzip FASTA, one byte, HDF5 magic + text, empty HDF5, HDF5 with look-alike datasets, HDF5 with the marker on a sub-group, SQLite header', 'file names': 'x.gs, x.h5, x.fasta, x'}))
